@@ -202,3 +202,5 @@ def run(ctx, tier: str, seed: int) -> None:
                 bound=f"{n} seeded random trees (1-2 root groups, <= {depth} nested group levels, <= 2 children of each "
                       f"kind, pools <= 3 entries) with a random non-empty fault subset (each slot with p = .15/.3/.6), "
                       f"{len(cers)} content evaluation results, both flags")
+    from bounded import valhist
+    valhist.run_histories(ctx, tier, seed + 16, list(G.POOL_C16_VALID[:6]) + list(invalids), entry_valid + list(invalids[:1]), cers)
